@@ -72,6 +72,10 @@ def run(model: RepoModel, rep, tier: str):
     check_accumulators(model, rep, "C19.R5", [FILE], C19_ADJUDICATED,
                        "stored paths or trie nodes are missed, so the store no longer holds exactly the maximal paths", 2,
                        classes={FILE: {"PathTrie", "PathManager", "CallPath", "CallSite"}})
+    from ..generic3 import check_identity_comparisons
+    rep.rule("C19.R8", "paths and call sites are values: the store compares them with == / in, never with is / is not (a caller's equal path is a "
+                       "different object)", 20)
+    check_identity_comparisons(model, rep, "C19.R8", FILE, ["PathTrie", "PathManager", "CallPath", "CallSite"])
     from ..generic import check_attr_reset_granularity
     rep.rule("C19.R7", "the store that is persisted is the one every entry point fed: state a phase driver hands on after its loop over the entry "
                        "points (the path manager whose paths are saved) is not re-created inside that loop", 1)
